@@ -1,5 +1,6 @@
 SPECIFICATION Spec
 CONSTANTS
   Menus <- MenusQ
+  FixSign = FALSE
 INVARIANTS SignAlsoRefuses
 CHECK_DEADLOCK FALSE
